@@ -5,4 +5,7 @@ import QlibcModel.Props.C13
 #print axioms Qlibc.Props.C13.wellLockedCfg_sound
 #print axioms Qlibc.Props.C13.all_wellLocked
 #print axioms Qlibc.Props.C13.unlocked_read_not_linearizable
+#print axioms Qlibc.Props.C13.all_atomic
+#print axioms Qlibc.Props.C13.one_critical_section_per_call
+#print axioms Qlibc.Props.C13.certified_call_is_wellLocked_op
 #print axioms Qlibc.Props.C13.macro_skeleton_as_modelled
